@@ -15,14 +15,30 @@ every route, tools that raise / mutate their arguments / return a shared object)
 alternately, reporting APIs interleaved, results mutated and the expression re-evaluated, values at the
 edges of the arithmetic, degenerate whole expressions, every entry point (metabolize auto / forced,
 digest_glucose), and long histories (> 20 000 evaluations on one engine).
+
+Round 4: a systematic sweep of every operator / one-argument function over every pairing of operand KINDS (numbers, booleans, strings,
+lists, tuples, each also empty); comparisons BETWEEN sequences whose elements are equal but of different numeric types (ints >= 2**63
+next to the equal float / complex, nested, list vs tuple, unequal lengths); every identifier the engine's module uses for a parameter
+or local variable as a keyword-argument NAME (discovered from the code objects of the tree under test); the same keyword twice;
+public settings (silent, timeout, max_ros, allowed_capabilities, the tools registry, the instance-level function table) assigned mid-
+session with the reference following the CURRENT value; non-bool flags, Fraction / Decimal / bool limits, one-shot iterables of tools,
+falsy callables and falsy tool objects, str-subclass expressions, results that are sentinels / exception instances / objects with
+attributes named like the engine's own labels; copy / deepcopy / pickle duplicates of the engine mid-session; address reuse (fresh
+equal-length strings dropped in a loop with gc.collect()); more exception types from tool bodies; execute_tool_call interleaved; a
+strict UTF-8 text stream in verbose mode, hostile tool names registered next to the callable ones, hostile string literals; one
+small probe in a child interpreter started with -O.
 """
 import ast
+import gc
+import json
+import os
+import subprocess
 import sys
 
 from rv import core
 from rv import vclock
 from rv.exprgen import AllowedGen, PURE_NAMES, in_allowed_grammar
-from rv.c02_gen import BoundaryGen, CHEAP_NAMES, NotCheap
+from rv.c02_gen import BoundaryGen, HostileGen, KIND_SWEEP, CHEAP_NAMES, NotCheap
 from rv import c02_rig as rig
 
 PID = "C02"
@@ -33,13 +49,23 @@ RULE = ("expressions generated from the allowed grammar (depth <= 5, literal exp
         "denormals, nan/inf/-0.0, other literal spellings, whole expressions that are one literal), each run on auto-detect and on every forced "
         "pathway that accepts it and through digest_glucose; engines in default and non-default configurations (verbose, timeouts under a virtual "
         "clock, ROS limits + repair, capability sets, tools with/without schemas via every registration route, raising/mutating tools), several "
-        "engines alternately, reporting APIs interleaved, long histories; non-trivial = >= 2 operators or a call; distinct = normalised ast.dump of the expression")
+        "engines alternately, reporting APIs interleaved, long histories; round 4: operator x operand-kind sweep (empty operands included), sequence "
+        "comparisons with equal-but-distinct elements, library identifiers as keyword names, repeated keywords, settings/registry changed mid-session, "
+        "non-bool / Fraction / Decimal settings, one-shot tool iterables, falsy callables, duck-typed / sentinel results, copy/deepcopy/pickle duplicates, "
+        "address reuse, strict output stream, hostile tool names, a -O child interpreter; "
+        "non-trivial = >= 2 operators or a call; distinct = normalised ast.dump of the expression")
 ASSUMPTIONS = ["the reference binds the lower-case spellings true/false only on the logic pathway (the normalisation the engine documents)",
                "a failure where Python succeeds is not a violation (the statement says 'whenever it reports success')",
                "value equality = same type and ==, NaN-aware, element-wise for lists/tuples (so 0.0 and -0.0 count as equal, as they do in Python)",
                "a registered tool is an allow-listed function on the tool pathway: Python's value of `tool(args, kw=...)` is the registered function applied to Python's values of the arguments",
                "leading blanks/tabs of the expression text are ignored by the reference, as Python's eval() ignores them",
-               "an exception escaping metabolize() is C01's subject (totality) and is only counted here"]
+               "an exception escaping metabolize() is C01's subject (totality) and is only counted here",
+               "'Python's evaluation raises' includes the SyntaxError Python raises when it COMPILES the expression although ast.parse accepts the text "
+               "(a keyword argument repeated in one call, wherever that call stands in the expression)",
+               "the allow-listed names of an engine are those CURRENTLY registered on it: a tool withdrawn from the public registry is a NameError for the "
+               "reference, a name re-bound to another function means that function, names added to the instance-level function table are bound for the "
+               "reference as well; execute_tool_call() takes no expression and is driven but not judged",
+               "process time zone (class C) and locks (class J) do not apply: the engine reads time.time() only and owns no lock"]
 
 # long sessions: case -> (evaluations, variant); variant 0 = plain engine, 1 = configured engine on the default ROS limit kept alive with repair()
 LONG = {"quick": {7: (22000, 0)},
@@ -61,7 +87,14 @@ def plan(tier):
                         "tool_results_compared": 1500, "tool_call_python_raises_checked": 500, "tool_body_raised_checked": 60,
                         "undeclared_keyword_reached_tool": 100, "reads_interleaved": 1500, "repairs": 500,
                         "reevaluated_after_result_mutation": 150, "multi_instance_steps": 5000, "long_session_evaluations": 15000,
-                        "registration_routes_used": 4}}
+                        "registration_routes_used": 4,
+                        # round 4
+                        "sequence_comparisons_compared": 600, "mixed_kind_operations_judged": 4000, "kind_sweep_items": 1800,
+                        "mixed_kind_python_raises_checked": 1500, "library_identifier_keywords_reached_tool": 300,
+                        "identifier_sweep_calls": 100, "settings_changed_mid_session": 2000, "judged_after_settings_change": 2000,
+                        "engine_duplicated": 400, "judged_on_duplicate": 800, "engine_duplicated:pickle": 150, "execute_tool_call_made": 1500, "churn_evaluations": 1500,
+                        "strict_stream_compared": 1000, "call_style_variants_compared": 5000, "extended_allow_list_compared": 100,
+                        "removed_tool_calls_checked": 20, "optimized_child_outcomes_judged": 100, "function_valued_arguments_compared": 150}}
 
 
 class _Raised:
@@ -94,6 +127,10 @@ def same_value(a, b):
         return bool(a == b)
     except Exception:
         return a is b
+
+
+def _repeated_keyword(e):
+    return isinstance(e, SyntaxError) and "keyword argument repeated" in str(e)
 
 
 def _ref_tree(tree, ns):
@@ -146,6 +183,9 @@ class Prepared:
         self.bare = isinstance(body, (ast.Constant, ast.Name)) or (isinstance(body, (ast.List, ast.Tuple)) and len(body.elts) <= 1 and self.nops == 0)
         self.bare_num = self.bare and isinstance(body, ast.Constant) and isinstance(body.value, (int, float, complex)) and not isinstance(body.value, bool)
         self.near = False
+        self.seqcmp = False
+        self.mixed = False
+        self.funcval = any(isinstance(x, ast.keyword) and x.arg == "key" for x in walk)
 
 
 def judge(ctx, eng, p, pathway, extra_w=None):
@@ -157,7 +197,7 @@ def judge(ctx, eng, p, pathway, extra_w=None):
     t_before = eng.clock.offset if eng.clock is not None else 0.0
     try:
         with eng.quiet():
-            res = eng.mito.metabolize(expr, pathway)
+            res = eng.call(expr, pathway)
     except BaseException:  # noqa
         ctx.count("engine_raised(totality is C01's subject)")
         return None
@@ -176,16 +216,21 @@ def judge(ctx, eng, p, pathway, extra_w=None):
         judge_tool(ctx, eng, p, res, w)
         return res
     lower = (used == MP.KREBS_CYCLE)
-    ref = reference(expr, lower)
+    ref = reference(expr, lower, extra=eng.pure_extra)
     if ref is None:
         ctx.count("reference_not_confinable")
         return res
     w["python"] = _r(ref)
+    if p.mixed:
+        ctx.count("mixed_kind_operations_judged")
     if isinstance(ref, _Raised):
         ctx.count("python_raises_checked")
+        if p.mixed:
+            ctx.count("mixed_kind_python_raises_checked")
         if res.success:
             kind = type(ref.e).__name__
             mech = "success-where-python-raises:%s" % ("called-constant" if "not callable" in str(ref.e) else
+                                                       "repeated-keyword" if _repeated_keyword(ref.e) else
                                                        "keyword-argument" if p.has_kw and kind == "TypeError" else kind)
             ctx.violation(mech, "engine reports success (%s) but Python raises %r" % (_r(res.atp.value), ref.e), w)
         return res
@@ -200,11 +245,13 @@ def judge(ctx, eng, p, pathway, extra_w=None):
                       (p.kw_in_str, "string_literal_with_keywords"), (p.bare_num, "bare_numeric_literal_compared"),
                       (p.near, "near_comparisons_compared"), (p.big, "beyond_2**53_compared"),
                       (not eng.silent, "verbose_mode_compared"), (eng.clock is not None, "virtual_clock_compared"),
-                      (not eng.plain, "nondefault_config_compared")):
+                      (not eng.plain, "nondefault_config_compared")) + _round4_flags(eng, p):
         if flag:
             ctx.count(key)
     if not same_value(res.atp.value, expected):
-        if p.has_kw and not p.has_boolop:
+        if p.seqcmp and not p.has_kw:
+            mech = "wrong-value:sequence-comparison"
+        elif p.has_kw and not p.has_boolop:
             mech = "wrong-value:keyword-arguments-dropped"
         elif used == MP.KREBS_CYCLE and p.kw_in_str:
             mech = "wrong-value:logic-rewrite-inside-literal"
@@ -219,10 +266,17 @@ def judge(ctx, eng, p, pathway, extra_w=None):
     return res
 
 
+def _round4_flags(eng, p):
+    return ((p.seqcmp, "sequence_comparisons_compared"), (p.funcval, "function_valued_arguments_compared"),
+            (not eng.silent and eng.strict_out, "strict_stream_compared"), (eng.style != "plain", "call_style_variants_compared"),
+            (eng.changed, "judged_after_settings_change"), (eng.duplicated, "judged_on_duplicate"),
+            (bool(eng.pure_extra) and any(k in p.expr for k in eng.pure_extra), "extended_allow_list_compared"))
+
+
 def judge_tool(ctx, eng, p, res, w):
     """tool pathway: Python's value of the call = the registered function (its twin) applied to Python's values of the arguments"""
     eng_calls = list(eng.eng_log)
-    ref = reference(p.expr, False, extra=eng.ref_ns)
+    ref = reference(p.expr, False, extra=dict(eng.pure_extra, **eng.ref_ns))
     ref_calls = list(eng.ref_log)
     if ref is None:
         ctx.count("reference_not_confinable")
@@ -238,9 +292,13 @@ def judge_tool(ctx, eng, p, res, w):
         ctx.count("tool_call_python_raises_checked")
         if ref_calls:
             ctx.count("tool_body_raised_checked")
+        if fname in eng.removed:
+            ctx.count("removed_tool_calls_checked")
         if res.success:
             if ref_calls:
                 mech = "success-where-python-raises:tool-body"
+            elif _repeated_keyword(ref.e):
+                mech = "success-where-python-raises:repeated-keyword"
             else:
                 ns = dict(CHEAP_NAMES)
                 parts = [a for a in call.args] + [k.value for k in call.keywords] if isinstance(call, ast.Call) else []
@@ -258,8 +316,10 @@ def judge_tool(ctx, eng, p, res, w):
         ctx.count("schema_tool_calls_compared")
         if isinstance(call, ast.Call) and any(k.arg not in schema for k in call.keywords):
             ctx.count("undeclared_keyword_reached_tool")
+    libkw = isinstance(call, ast.Call) and any(k.arg in _lib_idents() for k in call.keywords)
     for flag, key in ((not eng.silent, "verbose_mode_compared"), (eng.clock is not None, "virtual_clock_compared"),
-                      (not eng.plain, "nondefault_config_compared"), (p.has_kw, "keyword_calls_compared")):
+                      (not eng.plain, "nondefault_config_compared"), (p.has_kw, "keyword_calls_compared"),
+                      (libkw, "library_identifier_keywords_reached_tool")) + _round4_flags(eng, p):
         if flag:
             ctx.count(key)
     if len(eng_calls) != len(ref_calls):
@@ -276,6 +336,16 @@ def judge_tool(ctx, eng, p, res, w):
         ctx.violation("wrong-value:tool-result", "engine value %s != value of the call in Python %s" % (_r(res.atp.value), _r(ref)), w)
 
 
+_LIB = None
+
+
+def _lib_idents():
+    global _LIB
+    if _LIB is None:
+        _LIB = frozenset(rig.lib_identifiers())
+    return _LIB
+
+
 def judge_digest(ctx, eng, p):
     """legacy entry point: str(value) on the math pathway, or a 'Metabolic Failure' text"""
     try:
@@ -284,7 +354,7 @@ def judge_digest(ctx, eng, p):
     except BaseException:  # noqa
         ctx.count("engine_raised(totality is C01's subject)")
         return
-    ref = reference(p.expr, False)
+    ref = reference(p.expr, False, extra=eng.pure_extra)
     if ref is None or not isinstance(out, str):
         return
     failed = out.startswith("Metabolic Failure")
@@ -310,13 +380,16 @@ def judge_digest(ctx, eng, p):
 
 
 # ------------------------------------------------------------------------------------------------ workload
-def make_expression(rng, eng, in_session, boundary, depth=None):
+def make_expression(rng, eng, in_session, boundary, depth=None, hostile=False):
     """-> (Prepared, [(pathway, label)], also_digest) or None when the text does not parse"""
     from operon_ai.organelles.mitochondria import MetabolicPathway as MP
     mode = rng.choice(["math", "math", "logic", "logic", "auto", "auto", "tool", "transform"] + ["tool"] * eng.tool_bias)
     # in a session the lower-case spellings may also appear where they are NOT names Python knows (math / tool pathway)
     lower = (mode == "logic" or (mode == "auto" and rng.random() < 0.3) or (in_session and rng.random() < 0.35))
-    g = BoundaryGen(rng, lower_bools=lower) if boundary else AllowedGen(rng, lower_bools=lower)
+    if hostile:
+        g = HostileGen(rng, lower_bools=lower)
+    else:
+        g = BoundaryGen(rng, lower_bools=lower) if boundary else AllowedGen(rng, lower_bools=lower)
     if depth is None:
         depth = rng.choice([1, 2, 2, 3, 3, 4, 5])
     if mode == "tool":
@@ -333,17 +406,22 @@ def make_expression(rng, eng, in_session, boundary, depth=None):
             expr = expr[1:-1]
         runs = {"math": [(MP.GLYCOLYSIS, "math")], "logic": [(MP.KREBS_CYCLE, "logic")],
                 "auto": [(None, "auto"), (rng.choice([MP.GLYCOLYSIS, MP.KREBS_CYCLE]), "forced")]}[mode]
+        if eng.pure_extra and rng.random() < 0.4:
+            # names this engine's allow-list was extended with
+            expr = rng.choice(["twice(%s)", "(%s, twice(2))", "clamp(%s, hi=5)", "(halfpi * 2 == pi, %s)", "clamp(x=%s)", "twice(x=%s)"]) % expr
     try:
         p = Prepared(expr, mode)
     except (SyntaxError, ValueError):
         return None
     p.near = bool(getattr(g, "near_made", 0))
+    p.seqcmp = bool(getattr(g, "seqcmp_made", 0))
+    p.mixed = bool(getattr(g, "mixed_made", 0))
     digest = mode in ("math", "auto") and rng.random() < (0.5 if boundary else 0.1)
     return p, runs, digest
 
 
-def one_expression(ctx, n, rng, eng, in_session, boundary=False, depth=None):
-    made = make_expression(rng, eng, in_session, boundary, depth)
+def one_expression(ctx, n, rng, eng, in_session, boundary=False, depth=None, hostile=False):
+    made = make_expression(rng, eng, in_session, boundary, depth, hostile)
     if made is None:
         ctx.count("generator_syntax_error")
         return None
@@ -476,9 +554,28 @@ def session(ctx, n, rng, engines, steps, boundary_share=0.3, extras=True, label=
                 reads(ctx, rng, eng)
             elif r < 0.4:
                 maintenance(ctx, rng, eng)
+            r = rng.random()
+            if r < 0.14:
+                try:
+                    rig.reconfigure(ctx, rng, eng)
+                except Exception:  # noqa  (the engine refused the assignment: its state and the harness' picture are unchanged)
+                    ctx.count("setting_not_assignable(not judged)")
+                eng.changed = True
+                eng.plain = False
+                eng.desc = dict(eng.desc, settings_changed_mid_session=True)
+            elif r < 0.19:
+                before = eng.mito
+                rig.duplicate(ctx, rng, eng)
+                if eng.mito is not before:
+                    eng.duplicated = True
+                    eng.plain = False
+                    eng.desc = dict(eng.desc, engine_is_a_duplicate=True)
+            elif r < 0.27:
+                rig.direct_tool_call(ctx, rng, eng)
             if not healthy(eng) and rng.random() < 0.7:
                 maintenance(ctx, rng, eng, force=True)
-        out = one_expression(ctx, n, rng, eng, True, boundary=rng.random() < boundary_share)
+        hb = rng.random()
+        out = one_expression(ctx, n, rng, eng, True, boundary=hb < boundary_share, hostile=hb > 0.75)
         if extras and out is not None and out[1] is not None and rng.random() < 0.35:
             reevaluate_after_mutation(ctx, rng, eng, out[0], out[1])
 
@@ -513,9 +610,142 @@ def long_session(ctx, n, rng, ops, variant):
                 del early[rng.randrange(400)]
 
 
+def kind_sweep(ctx, n, rng, idx):
+    """systematic: every operator / one-argument function on every pairing of operand kinds (numbers, booleans, strings, lists, tuples,
+    each also empty), on both forced pathways and auto-detected"""
+    from operon_ai.organelles.mitochondria import MetabolicPathway as MP
+    eng = rig.build_engine(rng, plain=True)
+    for item in (KIND_SWEEP[(2 * idx) % len(KIND_SWEEP)], KIND_SWEEP[(2 * idx + 1) % len(KIND_SWEEP)]):
+        p = Prepared(item, "sweep")
+        p.mixed = True
+        ctx.count("kind_sweep_items")
+        for pathway in (MP.GLYCOLYSIS, MP.KREBS_CYCLE, None):
+            judge(ctx, eng, p, pathway)
+        ctx.nontrivial(ast.dump(p.tree))
+
+
+def identifier_sweep(ctx, n, rng, idx):
+    """systematic: every identifier the engine's module uses for a parameter or a local variable, as the NAME of a keyword argument of a
+    tool call (alone, and next to other keywords)"""
+    from operon_ai.organelles.mitochondria import MetabolicPathway as MP
+    idents = rig.lib_identifiers()
+    eng = rig.build_engine(rng, plain=True)
+    fn = rig.make_tool("describe", eng.eng_log, None)
+    eng.mito.engulf_tool(rig.CustomTool("describe", "protocol object", fn))
+    eng.kinds["describe"] = "describe"
+    eng.ref_ns["describe"] = rig.make_tool("describe", eng.ref_log, None)
+    name = idents[idx % len(idents)]
+    other = idents[(idx * 7 + 3) % len(idents)]
+    exprs = ["probe(1, %s=2)" % name, "describe('t', %s=[1, 2])" % name, "probe(%s=1 + 1, k=3)" % name]
+    if other != name:
+        exprs.append("probe(0, %s='x', %s=('y',))" % (other, name))
+    for expr in exprs:
+        p = Prepared(expr, "tool")
+        ctx.count("identifier_sweep_calls")
+        for pathway in (MP.OXIDATIVE, None):
+            judge(ctx, eng, p, pathway)
+
+
+def churn(ctx, n, rng, eng):
+    """address reuse: many short-lived, equal-length, freshly built expression strings (and fresh results) created and dropped in a
+    loop with collections in between; each is judged like any other expression"""
+    from operon_ai.organelles.mitochondria import MetabolicPathway as MP
+    pathway = rng.choice([MP.GLYCOLYSIS, MP.KREBS_CYCLE, None])
+    shape = rng.choice(["%d %s %d", "[%d] %s [%d]", "(%d %s %d, 0)", "probe(%d, k=%d)", "%d %s %d.0", "len('%d') %s %d"])
+    for i in range(32):
+        a, b = rng.randrange(10, 100), rng.randrange(10, 100)
+        if shape.count("%") == 3:
+            expr = shape % (a, rng.choice(["+", "-", "*", "%", "<", ">"] if not shape.startswith("[") else ["+", "<", ">"]), b)
+        else:
+            expr = shape % (a, b)
+        p = Prepared(expr, "churn")
+        ctx.count("churn_evaluations")
+        res = judge(ctx, eng, p, pathway if "probe" not in shape else rng.choice([MP.OXIDATIVE, None]))
+        del p, expr, res
+        if i % 16 == 15:
+            gc.collect()
+
+
+OPT_CASE = 19      # the case that starts the -O child interpreter
+
+
+def _unsigned_zero(text):
+    """0.0 and -0.0 count as equal (see ASSUMPTIONS); only a complete -0.0 token is rewritten"""
+    import re
+    return re.sub(r"(?<![0-9.])-0\.0(?![0-9eE_])", "0.0", text)
+
+
+def optimized_child(ctx, n, rng):
+    """one small probe in a child interpreter started with -O (assert statements are compiled away): refusals and values as everywhere"""
+    g = AllowedGen(rng)
+    items = [(g.failing(1), None) for _ in range(40)]
+    items += [(e, None) for e in ["pi()", "e(2)", "len(5)", "nosuch(1)", "probe(1, k=2)", "probe(", "abs(1, nosuch=2)", "round(2.567, ndigits=2)",
+                                  "1 if 1 / 0 else 2", "[1, 2] + ()", "'a' + 1", "-'a'", "not 1 / 0", "1 < 'a'", "max([])", "unknown", "probe2(1)",
+                                  "(1, 2) + [3]", "2 ** 3 ** 2", "1 < 2 < 3 > 0", "'True' == 'true'", "sum([1, 2], start=3)", "0 and 1 / 0"]]
+    items += [(rng.choice(KIND_SWEEP), None) for _ in range(120)]
+    items += [(g.top(3), None) for _ in range(40)]
+    spec = []
+    for expr, _ in items:
+        for pw in ("GLYCOLYSIS", "KREBS_CYCLE", None):
+            spec.append([expr, pw])
+    try:
+        r = subprocess.run([sys.executable, "-O", "-B", "-m", "rv.c02_child"], input=json.dumps(spec), capture_output=True, text=True,
+                           timeout=600, cwd=core.VERIF, env=dict(os.environ))
+        data = json.loads(r.stdout)
+    except Exception as e:  # noqa
+        ctx.inconclusive("the -O child interpreter could not be run: %r" % (e,))
+        return
+    if data.get("debug") is not False:
+        ctx.inconclusive("the child interpreter did not run with -O")
+        return
+
+    class _E:
+        pass
+    for (expr, pw), rec in zip(spec, data["results"]):
+        if "raised" in rec:
+            ctx.count("engine_raised(totality is C01's subject)")
+            continue
+        used = rec.get("pathway") if rec["success"] else pw
+        if used == "OXIDATIVE" or (used is None):
+            if not rec["success"]:
+                continue
+        w = {"expression": expr, "requested_pathway": pw, "interpreter": "python -O", "engine": rec}
+        if used == "OXIDATIVE":
+            log = []
+
+            def probe(*a, **k):
+                log.append(1)
+                return ("probe", a, tuple(sorted(k.items())))
+            ref = reference(expr, False, extra={"probe": probe})
+        elif used == "BETA_OXIDATION":
+            ref = reference(expr, False)
+        else:
+            ref = reference(expr, used == "KREBS_CYCLE")
+        if ref is None:
+            continue
+        ctx.count("optimized_child_outcomes_judged")
+        w["python"] = _r(ref)
+        if isinstance(ref, _Raised):
+            if rec["success"]:
+                ctx.violation("optimized-interpreter:success-where-python-raises", "under python -O the engine reports success (%s) but Python raises %r"
+                              % (rec.get("value"), ref.e), w)
+            continue
+        if not rec["success"] or rec.get("value") is None:
+            continue
+        expected = bool(ref) if used == "KREBS_CYCLE" else ref
+        try:
+            want = repr(expected)
+        except Exception:  # noqa
+            continue
+        if _unsigned_zero(rec["value"]) != _unsigned_zero(want) or rec.get("type") != type(expected).__name__:
+            ctx.violation("optimized-interpreter:wrong-value", "under python -O the engine returns %s, Python's value is %s" % (rec["value"], want), w)
+
+
 def run_case(ctx, n):
     """Case kinds by n % 10 (all pure functions of (seed, n)):
-    0-3, 9  one expression on a fresh plain engine (2, 3: boundary generator)
+    0-3     one expression on a fresh plain engine (2, 3: boundary generator; a share with the hostile generator)
+    9       systematic sweeps (operator x operand kinds; library identifiers as keyword names), then hostile-generator expressions;
+            case 19 runs the -O child interpreter
     4       session of 3-7 expressions on one plain engine (+ reads, repairs, re-evaluation after result mutation)
     5       engine in a non-default configuration (verbose, timeout under a self-advancing virtual clock, ROS limit, capabilities), short session
     6       tool family: tools of several signatures, with/without schema, every registration route, raising / mutating / shared-object tools
@@ -528,12 +758,41 @@ def run_case(ctx, n):
     if long:
         return long_session(ctx, n, rng, *long)
     kind = n % 10
-    if kind in (0, 1, 2, 3, 9):
+    if n == OPT_CASE:
+        optimized_child(ctx, n, ctx.rng(n, "child"))
+    if n == 7:
+        rig.public_surface(ctx, rig.build_engine(rng, plain=True))
+    if kind == 9:
+        idx = n // 10
+        if idx < (len(KIND_SWEEP) + 1) // 2:
+            kind_sweep(ctx, n, rng, idx)
+        if idx < 4 * len(rig.lib_identifiers()):
+            identifier_sweep(ctx, n, rng, idx)
         eng = rig.build_engine(rng, plain=True)
-        one_expression(ctx, n, rng, eng, False, boundary=kind in (2, 3))
+        one_expression(ctx, n, rng, eng, False, hostile=True)
+    elif kind in (0, 1, 2, 3):
+        eng = rig.build_engine(rng, plain=True)
+        one_expression(ctx, n, rng, eng, False, boundary=kind in (2, 3), hostile=rng.random() < 0.15)
     elif kind == 4:
         ctx.count("sessions")
-        session(ctx, n, rng, [rig.build_engine(rng, plain=True)], rng.randint(3, 7))
+        r = rng.random()
+        if r < 0.04:
+            churn(ctx, n, rng, rig.build_engine(rng, plain=True))
+        elif r < 0.2:
+            # an engine without tools in a non-default configuration (it can be pickled: no closures inside)
+            eng = rig.build_engine(rng, want_tools=-1)
+            try:
+                with eng.quiet():
+                    eng.mito.metabolize(rng.choice(FAILING_LOGIC))      # some state to carry over
+            except BaseException:  # noqa
+                pass
+            before = eng.mito
+            rig.duplicate(ctx, rng, eng, how="pickle")
+            if eng.mito is not before:
+                eng.duplicated = True
+            session(ctx, n, rng, [eng], rng.randint(3, 7))
+        else:
+            session(ctx, n, rng, [rig.build_engine(rng, plain=True)], rng.randint(3, 7))
     elif kind == 8:
         eng = rig.build_engine(rng, plain=True)
         for _ in range(2):
